@@ -953,8 +953,14 @@ class TreeTransform(Generic[TreeFnT]):
   ):
     """Checks the assign keys are valid."""
     non_dict_keys, dict_keys = mit.partition(_is_dict, assign_keys)
-    new_keys = set(itertools.chain(non_dict_keys, *dict_keys))
-    new_keys = {k for k in new_keys if not _is_skip(k)}
+    new_keys = [
+        k
+        for k in itertools.chain(non_dict_keys, *dict_keys)
+        if not _is_skip(k)
+    ]
+    if len(set(new_keys)) != len(new_keys):
+      raise KeyError(f'Duplicate keys within the output_keys {assign_keys}.')
+    new_keys = set(new_keys)
     if exisiting_keys is None:
       exisiting_keys = self.output_keys
     if conflicting_keys := new_keys.intersection(exisiting_keys):
@@ -1024,6 +1030,7 @@ class TreeTransform(Generic[TreeFnT]):
     fn = tree_fns.Select(
         input_keys=input_keys, output_keys=output_keys, batch_size=batch_size
     )
+    self._check_assign_keys(fn.output_keys, exisiting_keys=set())
     return self._maybe_new_transform(fn)
 
   def batch(self, batch_size: int = 0):
@@ -1131,6 +1138,8 @@ class TreeTransform(Generic[TreeFnT]):
         fn_batch_size=fn_batch_size,
         batch_size=batch_size,
     )
+    # The record is replaced: only the keys of this function can conflict.
+    self._check_assign_keys(fn.output_keys, exisiting_keys=set())
     return self._maybe_new_transform(fn)
 
   def flatten_transform(self) -> list[TreeTransform]:
